@@ -278,6 +278,20 @@ func checkErrorAt(t fataler, who string, input []byte, err error, lo, hi int, st
 	return true
 }
 
+// errorOffset: the smallest offset of input for which Position gives the line, column and context of the error (-1: none)
+func errorOffset(input []byte, pe *parse.Error) int {
+	for o := 0; o <= len(input); o++ {
+		l, c, ctx := parse.Position(bytes.NewReader(input), o)
+		if l == pe.Line && c == pe.Column && ctx == pe.Context {
+			return o
+		}
+		if l > pe.Line {
+			break
+		}
+	}
+	return -1
+}
+
 func cssTokenStarts(input []byte) map[int]bool {
 	starts := map[int]bool{len(input): true}
 	l := css.NewLexer(parse.NewInputBytes(append([]byte(nil), input...)))
@@ -300,7 +314,9 @@ var errFrags = map[string][]string{
 	"json": {"{", "}", "[", "]", ",", ":", `"a"`, `"`, "1", "-", "true", "nul", " ", "\n", "\x00", "é", "x", "@", "\r\n"},
 	"xml":  {"<a", ">", "/>", "</a>", " b='c'", " b=\"c\"", "<!--", "-->", "<![CDATA[", "]]>", "<?xml", "?>", "<!DOCTYPE", "[", "]", "text", "\n", "\x00", "é", " "},
 	"html": {"<a", ">", "/>", "</a>", " b=c", "<svg>", "</svg>", "<math>", "</math>", "<script>", "</script>", "\"", "text", "\n", "\x00", "é", "<!--", "-->", "<xml>", "</xml>"},
-	"js":   {"a", "=", "1", ";", "(", ")", "{", "}", "[", "]", "\n", " ", "@", "#", "\\", "`", "${", "'", "\"", "/", "/*", "*/", "//", "0x", "1n", "1a", "é", " ", "§", "\x01", "let", "function", "=>", "...", "?.", "~=", "class", "\x00", "\r\n", "if"},
+	"js":   {"a", "=", "1", ";", "(", ")", "{", "}", "[", "]", "\n", " ", "@", "#", "\\", "`", "${", "'", "\"", "/", "/*", "*/", "//", "0x", "1n", "1a", "é", " ", "§", "\x01", "let", "function", "=>", "...", "?.", "~=", "class", "\x00", "\r\n", "if",
+		// the errors that are raised with a message of their own (redeclaration, restricted productions, arrow parameters)
+		"let a;", "let a", "const a=1;", "class a{}", "var a;", "throw\n", "if(x)let[", "(a+b)=>", "(1)=>", "function a(){}", "{", "}", "x=>"},
 }
 
 func TestProp_ParserErrors(t *testing.T) {
@@ -378,6 +394,18 @@ func TestProp_ParserErrors(t *testing.T) {
 			_, err := js.Parse(in(), o)
 			if err != nil {
 				got = checkError(t, "js.Parse", input, err)
+				// metamorphic: behind a harmless statement and some lines the same error is reported that much further
+				// down (an error that carries no position of its own, or a stale one, stays where it was)
+				prefix := rapid.SampledFrom([]string{"x;\n", ";\n\n  ", "y = 1;\r\n\t", "z;\u2028"}).Draw(t, "prefix")
+				if pe, ok := err.(*parse.Error); ok && !bytes.HasPrefix(input, []byte("#!")) {
+					_, err2 := js.Parse(parse.NewInputBytes(append([]byte(prefix), input...)), o)
+					if pe2, ok := err2.(*parse.Error); ok && pe2.Message == pe.Message {
+						o1, o2 := errorOffset(input, pe), errorOffset(append([]byte(prefix), input...), pe2)
+						if o1 >= 0 && o2 != o1+len(prefix) {
+							t.Fatalf("js.Parse on %q: %q is reported at offset %d (line %d column %d); with %q in front of the input it is reported at offset %d (line %d column %d), not %d further", input, pe.Message, o1, pe.Line, pe.Column, prefix, o2, pe2.Line, pe2.Column, len(prefix))
+						}
+					}
+				}
 			}
 		}
 		multi := bytes.ContainsAny(input, "\n\r") || utf8.RuneCount(input) != len(input)
